@@ -37,7 +37,7 @@ CHECK = dict(
     id='C06',
     level_text='Each BitString/Cell primitive is executed symbolically from an ARBITRARY valid state (all buffer contents, capacities, lengths, cursors within the byte bound) and compared with an ideal-bit-list reference; z3 decides every assertion and every Go run-time check for all those states. One-step refinement + induction covers operation sequences.  Reference slots and cursor (AddRef, NextRef, RefsAvailableForRead, CopyRemaining, ResetCounters) for a cell with a symbolic number of references 0..4, a symbolic number of them already read and a symbolic bit position: slot order, refusal of a fifth reference, CopyRemaining = unread bits + unread references with the source cursors untouched.',
     level_note='Bounded: buffer of 16 bytes (128 bits), widths as listed in evidence.bounds; trusted base: ssa2json, the symgo interpreter (validated per run against native Go on solver-chosen inputs), z3.', pkgs=['boc'], init_pkgs=['std:io', 'boc'], instances=instances,
-    opts={'budget_s': 1500},
+    opts={'budget_s': 2400, 'vc_timeout': 400},
     bounds={'quick': {'buffer_bytes': 16, 'state': 'arbitrary (buf, cap, len, rCursor) with 0<=rCursor<=len<=cap<=8*len(buf)'},
             'thorough': {'buffer_bytes': 16}},
     lifted_by='induction on the operation sequence: each operation is checked from an arbitrary state satisfying the representation invariant (DESIGN 6)',
